@@ -5,9 +5,9 @@ package c01
 //	c01pipe   loader.LoadModelWithContext on 1–3 files   vs   Pipe.loadModel (convert → fixEmpty → Merge → EnforceUnicity
 //	          → Canonical → OmitEmpty → EnforceUnicity per document; then SetDefaultValues)
 //
-// Options: schema validation, interpolation, extends, include, normalisation off, paths not resolved, empty environment
-// (so that the parameters of the composition are the identity and the whole function is in the model);
-// SetDefaultValues on or off.  Compared: the outcome class (ok / err / panic) and, when both load, the whole tree.
+// Options: interpolation, extends, include off, paths not resolved, empty environment (so that the parameters of the
+// composition are the identity and the whole function is in the model); SetDefaultValues, schema + validation.Validate
+// (the model's schema verdict is C01Schema's `conforms`), Normalize each on or off.  Compared: the outcome class (ok / err / panic) and, when both load, the whole tree.
 // A crash of the real loader is a violation of C01 with the files as failing input.
 // Inputs: the valid rich document and catalogue combinations split over 1–3 files, (schema path × kind) placements,
 // the same with a mapping turned into the list of its values, lists with repeated elements.
@@ -18,6 +18,7 @@ import (
 	"fmt"
 	"os"
 	"sort"
+	"strings"
 
 	"github.com/compose-spec/compose-go/v2/loader"
 
@@ -27,6 +28,8 @@ import (
 type pipeArgs struct {
 	Docs         []any    `json:"docs"` // wire format of Val
 	SkipDefaults bool     `json:"skip_defaults"`
+	Validate     bool     `json:"validate,omitempty"` // schema.Validate + validation.Validate on
+	Normalize    bool     `json:"normalize,omitempty"` // loader.Normalize on
 	Pats         []string `json:"pats,omitempty"`
 }
 
@@ -36,11 +39,13 @@ func init() {
 			var a struct {
 				Docs         []json.RawMessage `json:"docs"`
 				SkipDefaults bool              `json:"skip_defaults"`
+				Validate     bool              `json:"validate"`
+				Normalize    bool              `json:"normalize"`
 			}
 			if err := json.Unmarshal(raw, &a); err != nil {
 				return map[string]any{"bad": err.Error()}
 			}
-			req := core.LoadReq{Files: map[string]string{}, ProjectName: "p", SkipValidation: true, SkipInterpolation: true, SkipNormalization: true,
+			req := core.LoadReq{Files: map[string]string{}, ProjectName: "p", SkipValidation: !a.Validate, SkipInterpolation: true, SkipNormalization: !a.Normalize,
 				NoResolvePaths: true, SkipExtends: true, SkipInclude: true, SkipDefaultValues: a.SkipDefaults, SkipConsistencyCheck: true}
 			for i, d := range a.Docs {
 				name := fmt.Sprintf("f%d.yml", i)
@@ -80,6 +85,10 @@ func init() {
 			_, derr := d["err"]
 			switch {
 			case rok && dok:
+				if strings.Contains(string(d["ok"]), "%!s(?)") {
+					// C11's model of the defaulted mount target prints scalars only and says so with this marker
+					return core.Skip("composite value under a %s verb of SetDefaultValues: outside C11's model")
+				}
 				if !core.CanonEqual(r["ok"], d["ok"]) {
 					return core.Disagree("Pipe.loadModel ≠ LoadModelWithContext: different trees")
 				}
@@ -141,7 +150,11 @@ func c01Pipe(ctx *core.Ctx, sch *c01Schema, rich M) {
 		ctx.Count("pipe-src-" + src)
 		ctx.Count(fmt.Sprintf("pipe-files-%d", n))
 		ctx.Count(fmt.Sprintf("pipe-skipDefaults-%v", skipDef))
-		ctx.Add("c01pipe", pipeArgs{Docs: c01SplitDoc(ctx, doc, n), SkipDefaults: skipDef})
+		validate := ctx.Rng.Intn(3) == 0
+		ctx.Count(fmt.Sprintf("pipe-validate-%v", validate))
+		normalize := ctx.Rng.Intn(3) == 0
+		ctx.Count(fmt.Sprintf("pipe-normalize-%v", normalize))
+		ctx.Add("c01pipe", pipeArgs{Docs: c01SplitDoc(ctx, doc, n), SkipDefaults: skipDef, Validate: validate, Normalize: normalize})
 	}
 	emit(c01DeepCopy(rich).(M), "rich")
 	emit(c01DeepCopy(rich).(M), "rich")
